@@ -13,6 +13,7 @@ import (
 	dtpb "github.com/google/fhir/go/proto/google/fhir/proto/r4/core/datatypes_go_proto"
 	"google.golang.org/protobuf/types/known/anypb"
 	"github.com/verily-src/fhirpath-go/fhirpath"
+	"github.com/verily-src/fhirpath-go/fhirpath/compopts"
 	"github.com/verily-src/fhirpath-go/fhirpath/evalopts"
 	"github.com/verily-src/fhirpath-go/fhirpath/system"
 	"github.com/verily-src/fhirpath-go/fhirpath/verifharness/core"
@@ -528,6 +529,14 @@ func lexicallyOdd(name string) bool {
 func c02ComparePath(env *core.Env, tn string, in []fhir.Resource, tree *model.Node, names []string, expect []*model.Node, rng *core.Rng) {
 	steps := namesToSteps(names)
 	src := model.RenderPath(tn, steps)
+	// history: a third of the paths are first compiled and evaluated with other options (Permissive, which navigates
+	// differently); the default compilation that follows is the one compared with the model
+	if core.Hash64(src)%3 == 0 {
+		env.Cover("other-options-first")
+		if pr := fx.EvalK(env, "permissive", src, in, []fhirpath.CompileOption{compopts.Permissive()}, nil); pr.IsPanic() {
+			env.Violatef(fx.PanicSig("C02", pr), "`%s` [Permissive] on %s => %s", src, tn, pr.Short())
+		}
+	}
 	r := fx.Eval(env, src, in, nil, nil)
 	env.Cover("path-compared")
 	if len(expect) > 0 {
